@@ -8,7 +8,7 @@ class Built(object):
     pass
 
 
-def build(model, ranks=None, plain=False):
+def build(model, ranks=None, plain=False, default_resource_ids=False):
     """Create a fresh project.  ``ranks``: {id: int} hash ranks of tasks/components.
 
     plain=True uses the unmodified pDESy classes (id()-based hashes, no observers).
@@ -84,7 +84,7 @@ def build(model, ranks=None, plain=False):
             workers.append(
                 M.bw.BaseWorker(
                     name=wj.get("name", wj["id"]),
-                    ID=wj["id"],
+                    ID=(None if default_resource_ids else wj["id"]),  # None -> the library's default: str(uuid.uuid4())
                     cost_per_time=wj.get("cost", 0.0),
                     solo_working=bool(wj.get("solo", False)),
                     workamount_skill_mean_map=dict(wj.get("skills", {})),
@@ -108,7 +108,7 @@ def build(model, ranks=None, plain=False):
             facs.append(
                 M.bf.BaseFacility(
                     name=fj.get("name", fj["id"]),
-                    ID=fj["id"],
+                    ID=(None if default_resource_ids else fj["id"]),
                     cost_per_time=fj.get("cost", 0.0),
                     solo_working=bool(fj.get("solo", False)),
                     workamount_skill_mean_map=dict(fj.get("skills", {})),
@@ -132,9 +132,14 @@ def build(model, ranks=None, plain=False):
         unit_timedelta=datetime.timedelta(seconds=model.get("unit_s", 60)),
         product=Product(comps),
         organization=Organization(team_list=teams, workplace_list=wps),
-        # workflow.task_list order: the spec order (a topological order) unless the model asks for another one
-        workflow=Workflow([tasks[i] for i in model["order"]] if model.get("order") else tasks),
+        workflow=Workflow(),
     )
+    # workflow.task_list order: the spec order (a topological order) unless the model asks for another one
+    listed = [tasks[i] for i in model["order"]] if model.get("order") else list(tasks)
+    if model.get("assign_list"):
+        project.workflow.task_list = listed  # the idiom of the library's own tests: parent_workflow is set lazily by initialize()
+    else:
+        project.workflow.extend_child_task_list(listed)
     b = Built()
     b.project, b.tasks, b.comps, b.teams, b.wps = project, tasks, comps, teams, wps
     b.workers = [w for tm in teams for w in tm.worker_list]
